@@ -44,6 +44,16 @@ def gen_scenario(rng, dry=None, modes=("name", "name", "path", "directory"), str
                 if rng.random() < 0.8:
                     plan[key] = rng.choice(universe)
                 order[key] = rng.randint(0, 9)
+    recursive, is_sorted = rng.random() < 0.5, mode != "directory" and rng.random() < 0.8
+    if mode == "path" and rng.random() < 0.2:
+        # files moved into directories that already exist, while the tree is walked recursively in listing order
+        # (an entry that is gathered again after its move is a second, undesignated, consideration)
+        recursive, is_sorted = True, False
+        for key in list(plan):
+            root, rel = key.split("|")
+            cand = [d for d, v in spec.items() if v is None and d.startswith(root + "/")]
+            if cand and rng.random() < 0.6:
+                plan[key] = rng.choice(cand)[len(root) + 1:] + "/" + rng.choice(["x", "y", "z", "e.txt"])
     strategy = rng.choice(strategies)
     answers = []
     if strategy == "manual":
@@ -51,9 +61,9 @@ def gen_scenario(rng, dry=None, modes=("name", "name", "path", "directory"), str
             a = rng.choice(["stop", "ignore", "override", "custom", "custom", "ignore"])
             answers.append([a, rng.choice(universe)] if a == "custom" else [a])
     return {
-        "spec": spec, "roots": roots, "explicit": explicit, "mode": mode, "recursive": rng.random() < 0.5,
+        "spec": spec, "roots": roots, "explicit": explicit, "mode": mode, "recursive": recursive,
         "hidden": rng.random() < 0.3, "strategy": strategy, "answers": answers, "plan": plan, "order": order,
-        "sorted": mode != "directory" and rng.random() < 0.8, "invert": rng.random() < 0.2,
+        "sorted": is_sorted, "invert": rng.random() < 0.2,
         "dry": (rng.random() < 0.3) if dry is None else dry,
         "fault_at": rng.choice([None, None, 0, 1, 2, 3]) if fault else None,
         "answer_style": rng.randrange(1 << 16),
@@ -124,8 +134,11 @@ class Observer:
         self._saved = {}
 
     def _rel(self, p):
-        p = os.path.abspath(os.fspath(p))
-        # the parent may be reached through the realpath of the sandbox
+        p = os.fspath(p)
+        if not os.path.isabs(p):
+            p = os.path.join(os.getcwd(), p)
+        # where the kernel ends up: symbolic links in the parent are followed BEFORE '..' is applied (no lexical
+        # normalisation: 'lnk/../../z' is not '../z' when lnk points deeper into the tree)
         parent = os.path.realpath(os.path.dirname(p))
         return os.path.relpath(os.path.join(parent, os.path.basename(p)), self.root)
 
@@ -211,6 +224,20 @@ def spec_from_json(spec):
     return {k: (tuple(v) if isinstance(v, list) else v) for k, v in spec.items()}
 
 
+def known_keys(case):
+    """plan keys of every entry of the INITIAL tree; an entry that appears only during the run (a file that was moved and
+    is gathered again) gets a visibly different name from the plan program, so that considering it twice shows"""
+    dirs = set(case["roots"]) | {os.path.dirname(e) for e in case["explicit"]}
+    keys = []
+    for d in sorted(dirs):
+        for p in case["spec"]:
+            if p.startswith(d + "/"):
+                keys.append(d + "|" + p[len(d) + 1:])
+    if case["mode"] == "directory" and not case["recursive"]:
+        keys += [(os.path.dirname(r) or ".") + "|" + pre + os.path.basename(r) for r in case["roots"] for pre in ("", "lnk_")]
+    return keys
+
+
 def observe(case, dry_override=None):
     """runs the real CLI on the scenario; everything the checks need about what it did"""
     dry = case["dry"] if dry_override is None else dry_override
@@ -220,7 +247,7 @@ def observe(case, dry_override=None):
         table = os.path.join(tempfile.mkdtemp(prefix="tvt_", dir=common.scratch_root()), "plan.json")
         try:
             with open(table, "w") as fh:
-                json.dump({"plan": case["plan"], "order": case["order"], "mode": case["mode"]}, fh)
+                json.dump({"plan": case["plan"], "order": case["order"], "mode": case["mode"], "known": known_keys(case)}, fh)
             os.environ["PLAN_TABLE"] = table
             os.environ["PLAN_ROOT"] = os.path.realpath(root)
             if case.get("spelling") == "symlink":
@@ -329,3 +356,66 @@ def compare_with_model(case, obs, dry_override=None):
             "tree": canonical_tree(obs["after"], ids, contents)}
     model = {"rc": m["rc"], "events": m["events"], "ops": m["ops"], "tree": mtree}
     return True, real == model, {"real": real, "model": model}
+
+
+# ------------------------------------------------------------------ selection and order, judged on the observed run
+def spec_gathered(case, before_kinds):
+    """the designated entries, straight from the text of C07; `before_kinds` maps path -> True for a directory"""
+    out = []
+    mode = case["mode"]
+    for r in case["roots"]:
+        if mode == "directory" and not case["recursive"]:
+            out.append([os.path.dirname(r) or ".", os.path.basename(r)])
+            continue
+        for p, is_dir in before_kinds.items():
+            if not p.startswith(r + "/"):
+                continue
+            rel = p[len(r) + 1:]
+            comps = rel.split("/")
+            if mode == "directory":
+                if not is_dir:
+                    continue
+            elif is_dir:
+                continue
+            if not case["recursive"] and len(comps) != 1:
+                continue
+            if not case["hidden"] and any(c.startswith(".") for c in comps):
+                continue
+            out.append([r, rel])
+    for e in case["explicit"]:
+        out.append([os.path.dirname(e), os.path.basename(e)])
+    return out
+
+
+def has_dir_link(case):
+    spec = case["spec"]
+    return any(isinstance(v, (list, tuple)) and
+               spec.get(os.path.normpath(os.path.join(os.path.dirname(p), v[1])), 0) is None for p, v in spec.items())
+
+
+def selection_violation(case, obs, what=("selection", "order")):
+    """every file a name was generated for is a designated entry of the INITIAL tree, once per designation (C07),
+    and with --sort the processing order follows the sort key over ALL input directories (C08)"""
+    if has_dir_link(case) or (case["mode"] == "directory" and case["explicit"]):
+        return None
+    before_kinds = {p: v[0] is None for p, v in obs["before"].items()}
+    expected = [[os.path.normpath(d), rel] for d, rel in spec_gathered(case, before_kinds)]
+    got = [[os.path.normpath(d), rel] for d, rel, _ in obs["gens"]]
+    pool = list(expected)
+    for g in (got if "selection" in what else []):
+        if g in pool:
+            pool.remove(g)
+        elif g in expected:
+            return f"entry {g} was considered more often than it is designated on the command line"
+        else:
+            return (f"entry {g} was considered although it is not a designated entry of the initial tree "
+                    f"(mode {case['mode']}, recursive {case['recursive']}, hidden {case['hidden']}, sorted {case['sorted']})")
+    if "selection" in what and obs["rc"] == 0 and pool:
+        return f"designated entries {pool[:3]} were never considered although the run succeeded"
+    if "order" in what and case["sorted"]:
+        keys = [case["order"].get(d + "|" + rel, 0) for d, rel in got]
+        want = sorted(keys, reverse=bool(case["invert"]))
+        if keys != want:
+            return (f"processing order does not follow the sort key over all input directories: keys in processing order "
+                    f"{keys[:12]} (invert {case['invert']}, roots {case['roots']})")
+    return None
